@@ -24,7 +24,7 @@ fn c09(group: &str, name: &str) -> Option<&'static str> {
         ("WalError", "PartialWrite") => "driven: injected torn append of every length",
         ("WalError", "FsyncFailed") => "driven: injected fsync failure (group commit, closing fsync, tick)",
         ("WalError", "Corruption") => "C10 / C14: undecodable payload (to_delta), bad header; from_delta cannot fail for the serialised types",
-        ("WalError", "NotFound") => "driven (C10): open_read of a file deleted between list() and open_read, LocalWalStore",
+        ("WalError", "NotFound") => "driven (C10): open_read of a missing file on LocalWalStore and on the in-memory store",
         ("WalActorHandle", "write_durable") => "driven",
         ("WalActorHandle", "write_fire_and_forget") => "driven (incl. a burst larger than the mailbox: the excess is dropped)",
         ("WalActorHandle", "truncate") => "driven",
@@ -36,7 +36,7 @@ fn c09(group: &str, name: &str) -> Option<&'static str> {
         ("WalConfig.field", "fsync_policy") => "generated: all three",
         ("WalConfig.field", "max_file_size") => "generated: 0, 1, 16 (<= header), 17, header + k entries (+-1), 1 MiB",
         ("WalConfig.field", "group_commit_max_entries") => "generated: 0, 1, 2, 3, 8, 64; crossed by bursts (300 writers / 64)",
-        ("WalConfig.field", "group_commit_max_wait") => "generated: 0, 200 us, 10 ms (virtual time; batch boundaries are compared)",
+        ("WalConfig.field", "group_commit_max_wait") => "generated: 0, 200 us, 5 ms (virtual time; batch boundaries are compared)",
         ("WalConfig.field", "truncation_check_interval") => "not read by the WAL actor (the caller's timer): printed in the CFG ops",
         ("WalConfig.fn", "test") | ("WalConfig.fn", "always_fsync") | ("WalConfig.fn", "every_second") => "driven: the actor is spawned from these constructors; their fields are compared with the model's table (CFG ops)",
         ("WalStore", "create") | ("WalStore", "open_read") | ("WalStore", "list") | ("WalStore", "delete") => "driven: recording / fault-injecting store (create, delete, list, open_read faults)",
